@@ -170,7 +170,10 @@ def evaluate_index(prop_mod, seed, index, tier):
     t0 = time.time()
     out = {"index": index, "violations": [], "discard": None}
     try:
-        case = prop_mod.generate(rng, tier)
+        if hasattr(prop_mod, "generate_indexed"):
+            case = prop_mod.generate_indexed(seed, index, tier, rng)
+        else:
+            case = prop_mod.generate(rng, tier)
     except Discard as d:
         out["discard"] = "gen:" + d.reason
         return out
